@@ -100,6 +100,10 @@ def _header(stmt):
 def _matches_head(stmt, head):
     """the statement starts with `head`, or it is a compound statement whose body starts with it (so that an `if` can be
     anchored by what it guards when its condition is the very thing under contract)"""
+    if head.rstrip().endswith("= ..."):
+        # anchored by the assignment target alone (`name = ...`): an edit of the right-hand side is verified, not skipped
+        pre = " ".join(head.rstrip()[:-3].split())
+        return isinstance(stmt, (ast.Assign, ast.AugAssign, ast.AnnAssign)) and " ".join(_header(stmt).split()).startswith(pre)
     h = _norm_head(head)
     if _header(stmt) == h:
         return True
